@@ -92,7 +92,7 @@ Print Assumptions c03_reason_to_code.
 
 (* non-vacuity: a family member, a schedule over the alphabet that reaches quiescence with no defect pattern and a complete reply *)
 Example c03_example :
-  let c := mk false true false RouteForward 2 true 0 [] true 1 [] [] [PoolConnFail] in
+  let c := mk false false false RouteForward 2 true 0 [] true 1 [] [] [PoolConnFail] in
   let sched := drive ++ [Env (EvUpResp 1 503 true false)] ++ drive ++ [Env (EvUpResp 2 200 true true)] ++ drive in
   In c family /\ Forall allowed sched /\ quiescent (final proxy_src c sched) = true /\ no_defect (final proxy_src c sched) = true /\
   g_ended (summ proxy_src c sched) = true /\ g_new (summ proxy_src c sched) = 3%nat.
